@@ -620,7 +620,7 @@ class Sample(Contract):
             out.append(("C18 last(sample_history) is the current population",
                         z3.Implies(g["store"], z3.BoolVal(last is not None and same_pop(last, smp)))))
             if sh["max_n_steps"]:
-                out.append(("C06 step cap not yet reached at loop head", it < g["max_n"]))
+                out.append(("C06 C11 step cap not yet reached at loop head", it < g["max_n"]))
             if isinstance(e.get("min_step"), Z):
                 out.append(("min_step >= 0", to_real(e["min_step"]) >= 0))
             if sh["n_steps"]:
